@@ -42,7 +42,7 @@ func init() {
 	registerIntrinsic(rtPkg+"Float", func(i *interpreter, fr *frame, fn *ssa.Function, a []value) value {
 		t := i.ctx.newInput(a[0].(string), SFP, "float")
 		i.ctx.assertPC(&Term{S: "(not (or (fp.isNaN " + t.S + ") (fp.isInfinite " + t.S + ")))", Sort: SBool})
-		return symFloat{t}
+		return symFloat{t: t}
 	})
 	registerIntrinsic(rtPkg+"Choice", func(i *interpreter, fr *frame, fn *ssa.Function, a []value) value {
 		lo, hi := asInt64(a[1]), asInt64(a[2])
